@@ -187,7 +187,13 @@ class DiskCache:
         """
         sentinel = object()
         # Raw bytes — diskcache stores bytes as-is (binary mode), no pickle.load
-        raw_bytes = self._cache.get(key, default=sentinel)
+        try:
+            raw_bytes = self._cache.get(key, default=sentinel)
+        except Exception:
+            # the store cannot decode the row: an altered payload, not raw bytes
+            logger.warning("Cache entry unreadable for key %s — evicting", key)
+            self._cache.delete(key)
+            return False, None
         if raw_bytes is sentinel:
             return False, None
 
@@ -197,7 +203,15 @@ class DiskCache:
             self._cache.delete(key)
             return False, None
 
-        stored_hmac = self._cache.get(key + self._HMAC_SUFFIX, default=None)
+        try:
+            stored_hmac = self._cache.get(key + self._HMAC_SUFFIX, default=None)
+        except Exception:
+            # the store cannot decode the row (e.g. a text column that is no
+            # longer valid UTF-8): an altered signature, not a usable one
+            logger.warning("Cache HMAC unreadable for key %s — evicting", key)
+            self._cache.delete(key)
+            self._cache.delete(key + self._HMAC_SUFFIX)
+            return False, None
         if stored_hmac is None:
             logger.warning("Cache entry missing HMAC for key %s — evicting", key)
             self._cache.delete(key)
